@@ -385,3 +385,241 @@ theorem make_unknown (dig : Nat → α) (r : Registry α κ ν) (id n : List α)
   unfold make; simp only [hp, hnot]; exact ⟨_, rfl⟩
 
 end Reg
+
+namespace Reg
+variable {α : Type} [DecidableEq α] {C : Cls α}
+
+/-! ### canonical decimal strings: `digitsOf` is the inverse of `valOf` on them -/
+
+/-- a version string written with the digits `dig 0 … dig 9` and without leading zeros -/
+def Canonical (dig : Nat → α) (ds : List α) : Prop :=
+  ds ≠ [] ∧ (∀ c ∈ ds, ∃ k, k < 10 ∧ c = dig k) ∧ (∀ c rest, ds = c :: rest → rest ≠ [] → c ≠ dig 0)
+
+theorem digitsAux_fuel (dig : Nat → α) (f1 f2 n : Nat) (acc : List α) (h1 : n < f1) (h2 : n < f2) :
+    digitsAux dig f1 n acc = digitsAux dig f2 n acc := by
+  induction f1 generalizing f2 n acc with
+  | zero => omega
+  | succ f1 ih =>
+    cases f2 with
+    | zero => omega
+    | succ f2 =>
+      unfold digitsAux
+      split
+      · rfl
+      · exact ih f2 (n / 10) _ (by omega) (by omega)
+
+theorem digitsAux_acc (dig : Nat → α) (fuel n : Nat) (acc : List α) :
+    digitsAux dig fuel n acc = digitsAux dig fuel n [] ++ acc := by
+  induction fuel generalizing n acc with
+  | zero => simp [digitsAux]
+  | succ f ih =>
+    unfold digitsAux
+    split
+    · simp
+    · rw [ih (n / 10) (dig (n % 10) :: acc), ih (n / 10) [dig (n % 10)]]
+      simp
+
+theorem digitsOf_lt (dig : Nat → α) (n : Nat) (h : n < 10) : digitsOf dig n = [dig n] := by
+  unfold digitsOf digitsAux; simp [h]
+
+theorem digitsOf_ge (dig : Nat → α) (n : Nat) (h : 10 ≤ n) :
+    digitsOf dig n = digitsOf dig (n / 10) ++ [dig (n % 10)] := by
+  have hn : ¬ n < 10 := by omega
+  unfold digitsOf
+  rw [digitsAux]
+  simp only [hn, if_false]
+  rw [digitsAux_acc, digitsAux_fuel dig n (n / 10 + 1) (n / 10) [] (by omega) (by omega)]
+
+theorem valOf_snoc (ds : List α) (c : α) : valOf C (ds ++ [c]) = valOf C ds * 10 + C.val c := by
+  simp [valOf, List.foldl_append]
+
+theorem foldl_val_ge (ds : List α) (a : Nat) : a ≤ ds.foldl (fun acc c => acc * 10 + C.val c) a := by
+  induction ds generalizing a with
+  | nil => exact Nat.le_refl _
+  | cons c ds ih =>
+    simp only [List.foldl_cons]
+    exact Nat.le_trans (by omega) (ih _)
+
+theorem valOf_pos (dig : Nat → α) (hval : ∀ k, k < 10 → C.val (dig k) = k) (c : α) (rest : List α)
+    (hc : ∃ k, k < 10 ∧ c = dig k) (h0 : c ≠ dig 0) : 0 < valOf C (c :: rest) := by
+  obtain ⟨k, hk, rfl⟩ := hc
+  have hk0 : k ≠ 0 := fun e => h0 (by rw [e])
+  have := foldl_val_ge (C := C) rest (0 * 10 + C.val (dig k))
+  simp only [valOf, List.foldl_cons]
+  rw [hval k hk] at this ⊢
+  omega
+
+theorem Canonical.init (dig : Nat → α) (ds : List α) (c : α) (hne : ds ≠ []) (h : Canonical dig (ds ++ [c])) :
+    Canonical dig ds := by
+  obtain ⟨_, h2, h3⟩ := h
+  refine ⟨hne, fun x hx => h2 x (by simp [hx]), ?_⟩
+  intro x rest e hr
+  exact h3 x (rest ++ [c]) (by simp [e]) (by simp)
+
+/-- `digitsOf ∘ valOf = id` on canonical digit strings (proved for every string, by induction from the last digit) -/
+theorem digitsOf_valOf_rev (dig : Nat → α) (hval : ∀ k, k < 10 → C.val (dig k) = k) (rs : List α)
+    (hc : Canonical dig rs.reverse) : digitsOf dig (valOf C rs.reverse) = rs.reverse := by
+  induction rs with
+  | nil => exact absurd rfl hc.1
+  | cons c rs ih =>
+    simp only [List.reverse_cons] at hc ⊢
+    obtain ⟨k, hk, rfl⟩ := hc.2.1 c (by simp)
+    rw [valOf_snoc, hval k hk]
+    cases hrs : rs.reverse with
+    | nil =>
+      simp [valOf, digitsOf_lt dig k hk]
+    | cons d rest =>
+      have hne : rs.reverse ≠ [] := by rw [hrs]; simp
+      have hci := Canonical.init dig rs.reverse (dig k) hne hc
+      have hpos : 0 < valOf C (d :: rest) := by
+        rw [hrs] at hc hci
+        exact valOf_pos dig hval d rest (hci.2.1 d (by simp)) (hc.2.2 d (rest ++ [dig k]) (by simp) (by simp))
+      rw [← hrs] at hpos ⊢
+      rw [digitsOf_ge dig _ (by omega)]
+      have e1 : (valOf C rs.reverse * 10 + k) / 10 = valOf C rs.reverse := by omega
+      have e2 : (valOf C rs.reverse * 10 + k) % 10 = k := by omega
+      rw [e1, e2, ih hci]
+
+theorem digitsOf_valOf (dig : Nat → α) (hval : ∀ k, k < 10 → C.val (dig k) = k) (ds : List α)
+    (hc : Canonical dig ds) : digitsOf dig (valOf C ds) = ds := by
+  have := digitsOf_valOf_rev (C := C) dig hval ds.reverse (by simpa using hc)
+  simpa using this
+
+/-- `digitsOf` produces canonical strings (so the hypothesis of `digitsOf_valOf` is exactly the image of `format`) -/
+theorem digitsOf_canonical (dig : Nat → α) (hinj : ∀ k, 0 < k → k < 10 → dig k ≠ dig 0) (n : Nat) :
+    Canonical dig (digitsOf dig n) := by
+  induction n using Nat.strongRecOn with
+  | _ n ih =>
+    by_cases h : n < 10
+    · rw [digitsOf_lt dig n h]
+      exact ⟨by simp, fun c hc => ⟨n, h, by simpa using hc⟩, fun c rest e hr => by simp at e; exact absurd e.2 hr⟩
+    · rw [digitsOf_ge dig n (by omega)]
+      obtain ⟨i1, i2, i3⟩ := ih (n / 10) (by omega)
+      refine ⟨by simp, ?_, ?_⟩
+      · intro c hc
+        simp at hc
+        rcases hc with hc | rfl
+        · exact i2 c hc
+        · exact ⟨n % 10, Nat.mod_lt _ (by omega), rfl⟩
+      · intro c rest e hr
+        cases hd : digitsOf dig (n / 10) with
+        | nil => exact absurd hd i1
+        | cons d rest' =>
+          rw [hd] at e
+          simp at e
+          obtain ⟨rfl, _⟩ := e
+          by_cases hr' : rest' = []
+          · subst hr'
+            by_cases h10 : n / 10 < 10
+            · rw [digitsOf_lt dig _ h10] at hd
+              simp at hd
+              rw [← hd]
+              exact hinj _ (by omega) h10
+            · rw [digitsOf_ge dig _ (by omega)] at hd
+              have hl := congrArg List.length hd
+              simp at hl
+              exact absurd hl (ih (n / 10 / 10) (by omega)).1
+          · exact i3 d rest' hd hr'
+
+/-- … and formats back to itself: for EVERY well-formed id whose version is written canonically -/
+theorem format_parse' (h : ClsOK C) (dig : Nat → α) (hval : ∀ k, k < 10 → C.val (dig k) = k)
+    (s n ds : List α) (hw : WellFormed C s n ds) (hc : Canonical dig ds) :
+    parse C s = .ok (n, valOf C ds) ∧ format C dig n (valOf C ds) = s := by
+  refine ⟨parse_wellFormed h s n ds hw, ?_⟩
+  rw [format, digitsOf_valOf dig hval ds hc]
+  exact hw.1.symm
+
+/-- the same starting from a successful parse -/
+theorem format_parse_of_parse (dig : Nat → α) (hval : ∀ k, k < 10 → C.val (dig k) = k)
+    (s n ds : List α) (v : Nat) (hp : parse C s = .ok (n, v)) (hs : s = n ++ C.dash :: C.vee :: ds)
+    (hc : Canonical dig ds) : format C dig n v = s := by
+  obtain ⟨ds', ⟨hs', _, _⟩, hv⟩ := parse_ok_wellFormed s n v hp
+  have : ds' = ds := by
+    rw [hs'] at hs
+    have := List.append_cancel_left hs
+    simpa using this
+  subst this
+  rw [format, hv, digitsOf_valOf dig hval ds' hc]
+  exact hs'.symm
+
+/-! ### the registry: exact errors, lookups preserved by later registrations -/
+variable {κ ν : Type} [DecidableEq κ]
+
+theorem register_dup_refused_exact (dig : Nat → α) (r : Registry α κ ν) (id n : List α) (v : Nat) (ep : String)
+    (kw : List (κ × ν)) (hp : parse C id = .ok (n, v)) (hin : format C dig n v ∈ registered r) :
+    register C dig r id ep kw = .error (.alreadyRegistered (format C dig n v)) := by
+  have : (List.map (fun x => x.fst) r).contains (format C dig n v) = true := by
+    simpa [registered] using hin
+  unfold register
+  rw [hp]
+  simp only []
+  rw [if_pos this]
+
+theorem register_parse_error (dig : Nat → α) (r : Registry α κ ν) (id : List α) (e : ParseError) (ep : String)
+    (kw : List (κ × ν)) (hp : parse C id = .error e) : register C dig r id ep kw = .error (.parse e) := by
+  unfold register; rw [hp]
+
+theorem make_unknown_exact (dig : Nat → α) (r : Registry α κ ν) (id n : List α) (v : Nat) (kw : List (κ × ν))
+    (hp : parse C id = .ok (n, v)) (hnot : r.lookup (format C dig n v) = none) :
+    make C dig r id kw = .error (.unregistered (format C dig n v) (registered r)) := by
+  unfold make; simp only [hp, hnot]; rfl
+
+theorem make_parse_error (dig : Nat → α) (r : Registry α κ ν) (id : List α) (e : ParseError)
+    (kw : List (κ × ν)) (hp : parse C id = .error e) : make C dig r id kw = .error (.parse e) := by
+  unfold make; rw [hp]
+
+/-- `make(id, **kw)` on ANY registry in which the (normalised) id is registered -/
+theorem make_registered (dig : Nat → α) (r : Registry α κ ν) (id n : List α) (v : Nat) (kw : List (κ × ν))
+    (sp : EnvSpec κ ν) (hp : parse C id = .ok (n, v)) (hl : r.lookup (format C dig n v) = some sp) :
+    make C dig r id kw = .ok (sp.entryPoint, mergeKwargs sp.kwargs kw) := by
+  unfold make; simp only [hp, hl]
+
+theorem lookup_append_left {β} (r x : List (List α × β)) (k : List α) (v : β) (h : r.lookup k = some v) :
+    (r ++ x).lookup k = some v := by
+  induction r with
+  | nil => simp [List.lookup] at h
+  | cons p r ih =>
+    simp only [List.cons_append, List.lookup] at h ⊢
+    split
+    · rename_i hk; simp only [hk] at h; exact h
+    · rename_i hk; simp only [hk] at h; exact ih h
+
+/-- a later successful registration never changes what an already registered id maps to -/
+theorem register_preserves_lookup (dig : Nat → α) (r r' : Registry α κ ν) (id : List α) (ep : String)
+    (kw : List (κ × ν)) (h : register C dig r id ep kw = .ok r') (k : List α) (sp : EnvSpec κ ν)
+    (hl : r.lookup k = some sp) : r'.lookup k = some sp := by
+  obtain ⟨n, v, _, _, rfl⟩ := register_ok dig r r' id ep kw h
+  exact lookup_append_left r _ k sp hl
+
+/-- any sequence of later `register` calls (refused ones leave the registry as it is) -/
+def runRegs (dig : Nat → α) (r : Registry α κ ν) : List (List α × String × List (κ × ν)) → Registry α κ ν
+  | [] => r
+  | (id, ep, kw) :: rest =>
+    match register C dig r id ep kw with
+    | .ok r' => runRegs dig r' rest
+    | .error _ => runRegs dig r rest
+
+theorem runRegs_preserves_lookup (dig : Nat → α) (r : Registry α κ ν) (calls : List (List α × String × List (κ × ν)))
+    (k : List α) (sp : EnvSpec κ ν) (hl : r.lookup k = some sp) : (runRegs (C := C) dig r calls).lookup k = some sp := by
+  induction calls generalizing r with
+  | nil => exact hl
+  | cons c calls ih =>
+    obtain ⟨id, ep, kw⟩ := c
+    simp only [runRegs]
+    split
+    · rename_i r' hr
+      exact ih r' (register_preserves_lookup dig r r' id ep kw hr k sp hl)
+    · exact ih r hl
+
+/-- `make(id)` after `register(id, ep, **reg)` and ANY later history of `register` calls builds `ep` with the
+registered kwargs overridden by the caller's -/
+theorem make_after_register_later (dig : Nat → α) (r r' : Registry α κ ν) (id : List α) (ep : String)
+    (reg kw : List (κ × ν)) (hr : register C dig r id ep reg = .ok r')
+    (calls : List (List α × String × List (κ × ν))) :
+    make C dig (runRegs (C := C) dig r' calls) id kw = .ok (ep, mergeKwargs reg kw) := by
+  obtain ⟨n, v, hp, hnot, rfl⟩ := register_ok dig r r' id ep reg hr
+  have h1 := lookup_append_of_not_mem r (format C dig n v) ({ entryPoint := ep, kwargs := reg } : EnvSpec κ ν)
+    (by simpa [registered] using hnot)
+  exact make_registered dig _ id n v kw _ hp (runRegs_preserves_lookup dig _ calls _ _ h1)
+
+end Reg
